@@ -202,6 +202,12 @@ func verifPoint(point string, who string, n int) {
 }
 
 func verifTask(point string, t *Task, n int) {
+	if atomic.LoadInt32(&verifPassive) == 1 {
+		// (not even the task's temp-dir name is computed: calling TempDir() here,
+		// from the process's goroutine, would order whatever TempDir() touches
+		// before the task goroutines and hide a race from the race detector)
+		return
+	}
 	who := t.Name
 	verifHit(point, who, t.TempDir(), n)
 }
